@@ -29,9 +29,9 @@ OPEN_STATEMENTS = [
     'suzuki_palindrome, suzuki_times_sum).  The harness only *tests* error ratios under step doubling, with generous margins',
     'NOT PROVED: exactness for commuting pieces as a statement about matrix exponentials (checked numerically: oracle)',
     'NOT PROVED: controlled variants (identity on control 0, phase of the constant) — oracle only',
-    'lsn_asym_step_is_product_formula covers the asymmetric linear swap network step (real hopping part, density-density part, '
-    'number operators); the imaginary hopping part, the symmetric step, SPLIT_OPERATOR and LOW_RANK emitters are covered by the '
-    'product-formula correspondence / oracle only',
+    'lsn_asym/sym_step_is_product_formula cover the linear swap network steps (real hopping part, density-density part, '
+    'number operators: total coefficients per generator kind); the imaginary (oriented) hopping part, the mirrored order of the '
+    'symmetric step, SPLIT_OPERATOR and LOW_RANK emitters are covered by the product-formula correspondence / oracle only',
     'that the real circuits equal the product of exponentials of the Model generator lists is a 1e-8 float comparison',
 ]
 ASSUMPTIONS = [
